@@ -32,7 +32,7 @@ func init() {
 // c12Model builds types T0..Tn-1 (a DAG: a type inherits only from earlier ones) and hosts that use allOf.
 func c12Model(r *xrand.Rand, maxTypes, maxDepth int) (*gen.Model, string) {
 	n := r.Range(2, maxTypes)
-	var types []*gen.Block
+	var types, keyTypes []*gen.Block
 	depth := make([]int, n)
 	uid := 0
 	prop := func(prefix string) *gen.SProp {
@@ -113,6 +113,11 @@ func c12Model(r *xrand.Rand, maxTypes, maxDepth int) (*gen.Model, string) {
 		for k := nprops; k > 0; k-- {
 			sc.Props = append(sc.Props, prop(fmt.Sprintf("t%d", i)))
 		}
+		if r.Chance(1, 5) { // a property whose key is a user-type reference (@K : value), one key type per declaring type
+			uid++
+			sc.Props = append(sc.Props, &gen.SProp{Key: fmt.Sprintf("@K%d", i), KeyRef: true, Node: &gen.SNode{Kind: "int", Val: fmt.Sprint(uid)}})
+			keyTypes = append(keyTypes, &gen.Block{Kind: "type", Name: fmt.Sprintf("@K%d", i), Notation: "jsight", Schema: &gen.SNode{Kind: "string", Val: fmt.Sprintf("key%d", i)}})
+		}
 		if r.Chance(1, 4) && i > 0 { // a nested object with its own allOf
 			nb := pickBases(i, false)
 			var ok []int
@@ -151,6 +156,7 @@ func c12Model(r *xrand.Rand, maxTypes, maxDepth int) (*gen.Model, string) {
 	hosts := ""
 	m := &gen.Model{}
 	m.Blocks = append(m.Blocks, types...)
+	m.Blocks = append(m.Blocks, keyTypes...)
 	if r.Chance(2, 3) {
 		me := &gen.Method{Verb: "POST", Path: "/h1/{p1}", OwnPath: true}
 		if r.Bool() {
